@@ -23,7 +23,7 @@ Terms are nested tuples (hashable):
 from __future__ import annotations
 
 import ast
-from typing import Any, Callable, Dict, List, Optional, Tuple
+from typing import Any, Callable, Dict, List, Optional, Sequence, Tuple
 
 from .repo import AnalysisError, ClassInfo, FuncInfo, Module, Repo, dotted
 
@@ -316,6 +316,8 @@ def show(t: Any) -> str:
         return "not (%s)" % show(t[1])
     if k in ("and", "or"):
         return "(" + (" %s " % k).join(show(x) for x in t[1]) + ")"
+    if k == "vor":
+        return "(" + " or ".join(show(x) for x in t[1]) + ")"
     if k == "lin":
         parts = []
         for a, c in t[1]:
@@ -1078,6 +1080,8 @@ class Norm:
 
     def truth(self, v: Term, scope: Optional[Scope]) -> Term:
         """the condition `v` stands for in a test position: for a value known to be bytes / str / list / dict it is `len(v) != 0`"""
+        if v[0] == "vor":
+            return mk_or([self.truth(x, scope) for x in v[1]])      # as a condition the order of the alternatives does not matter
         if v[0] in ("cmp", "cmpz", "and", "or", "not", "c", "call") and not (v[0] == "call" and v[1][0] == "a"):
             return v
         ty = self.type_of(v, scope)
@@ -1096,7 +1100,20 @@ class Norm:
                 self.guard_stack.append(t if isinstance(node.op, ast.And) else mk_not(t))
         finally:
             del self.guard_stack[n0:]
-        return mk_and(vals) if isinstance(node.op, ast.And) else mk_or(vals)
+        if isinstance(node.op, ast.And):
+            return mk_and(vals)
+        return self.mk_value_or(vals)
+
+    def mk_value_or(self, vals: Sequence[Term]) -> Term:
+        """`a or b` as a VALUE is the first true operand: order matters unless every operand is a condition"""
+        if all(self._boolish(v, self) for v in vals):
+            return mk_or(list(vals))
+        flat: List[Term] = []
+        for v in vals:
+            for x in (v[1] if v[0] == "vor" else (v,)):
+                if not flat or flat[-1] != x:
+                    flat.append(x)
+        return flat[0] if len(flat) == 1 else ("vor", tuple(flat))
 
     def n_IfExp(self, node: ast.IfExp, scope: Scope) -> Term:
         c = self.truth(self.norm(node.test, scope), scope)
@@ -1127,9 +1144,9 @@ class Norm:
                 return ("call", ("a", m_, "get"), (k_, dflt), ())
         # `x if x else y` is `x or y`; `y if not x else x` likewise; `x if not x else y` is `x and y`
         if c == a:
-            return mk_or([a, b])
+            return self.mk_value_or([a, b])
         if c == mk_not(b) and b[0] != "c":
-            return mk_or([b, a])
+            return self.mk_value_or([b, a])
         # boolean-valued conditionals are conditions
         if a == C(True) and b == C(False):
             return c
